@@ -106,6 +106,21 @@ theorem api_borrowed_has_parent :
       (e.params.any (fun p => match p.cls with | .obj _ => p.mode != .consume | _ => false)) = true := by
   decide +kernel
 
+/-- the table theorems are not vacuous: the translator found the entry points, their documentation and their
+protection (a silent loss of, say, all "on exception" phrases would make `api_errval_matches_doc` trivially true) -/
+theorem api_table_nonvacuous :
+    250 ≤ apiTable.length ∧
+    165 ≤ (apiTable.filter (fun e => e.docErr.isSome)).length ∧
+    35 ≤ (apiTable.filter (fun e => e.ret == .charBool)).length ∧
+    100 ≤ (apiTable.filter (fun e => e.ret == .ptr)).length ∧
+    250 ≤ (apiTable.filter (fun e => e.wrap == .execute)).length ∧
+    20 ≤ (apiTable.filter (fun e => e.params.any (fun p => p.mode == .consume))).length ∧
+    (lookup apiTable "GEOSDisjoint_r").any (fun e => e.docErr == some (.int 2) && e.implErr == some (.int 2) && e.wrap == .execute) = true ∧
+    (lookup apiTable "GEOSBuffer_r").any (fun e => e.docErr == some .null && e.implErr == some .null && e.sridFromFirst) = true ∧
+    (lookup apiTable "GEOSGeomGetNumPoints_r").any (fun e => e.docErr == some (.int (-1)) && e.implErr == some (.int (-1))) = true ∧
+    (lookup apiTable "GEOSArea_r").any (fun e => e.docErr == some (.int 0) && e.implErr == some (.int 0)) = true := by
+  decide +kernel
+
 /-! ## B. the ownership discipline, for all call sequences -/
 
 /-- **no dangling, one call**: a legal call only receives live objects of the declared kind -/
